@@ -85,13 +85,15 @@ def scen_of(mech):
     return S.Scen("c13", version=mech["version"], suite=mech["suite"],
                   cred="rsa", client_cred=mech.get("client_cred"),
                   req_cert=mech.get("req_cert", False),
-                  ckw={"serverName": "host.example"})
+                  ckw={"serverName": "host.example",
+                       "alpn": [b"h2", b"http/1.1"]},
+                  skw={"alpn": [b"h2", b"http/1.1"]})
 
 
 OFFERS = ["none", "held", "held-noems", "held-noetm", "ticket-flip-first",
           "ticket-flip-mid", "ticket-flip-last", "unknown-id", "foreign",
           "held-refreshed-clock", "held-other-hash", "held-same-hash",
-          "held-copy"]
+          "held-copy", "held-no-alpn", "held-other-alpn"]
 # suite the client offers instead of the session's: (other PRF hash / other
 # suite, same hash) per original cipher name
 OTHER = {"aes128gcm": ("aes256gcm", "chacha20-poly1305"),
@@ -183,6 +185,11 @@ def apply_offer(st, offer):
         if alt is None:
             return None, cset, srv, False, False
         cset["cipherNames"] = [alt]
+    elif offer == "held-no-alpn":
+        # ALPN is negotiated afresh on every connection
+        cset["_alpn"] = None
+    elif offer == "held-other-alpn":
+        cset["_alpn"] = [b"http/1.1"]
     elif offer == "held-refreshed-clock":
         # a client whose notion of the ticket's receipt time is wrong keeps
         # offering it after the lifetime
@@ -236,7 +243,15 @@ def do_connect(st, offer, seed):
     sess, cset, srv_i, altered, inconsistent = apply_offer(st, offer)
     srv = st.servers[srv_i]
     for k, v in cset.items():
-        sc.cset[k] = v
+        if k == "_alpn":
+            if v is None:
+                sc.ckw.pop("alpn", None)
+            else:
+                sc.ckw["alpn"] = v
+        else:
+            sc.cset[k] = v
+    want_alpn = (sc.ckw.get("alpn") or [None])[0] if not \
+        (sc.ckw.get("alpn") and b"h2" in sc.ckw["alpn"]) else b"h2"
     st.n_conn += 1
     SEAMS.reset(seed, "c13-%d" % st.n_conn, now=st.now)
     pair = Pair(World())
@@ -290,6 +305,13 @@ def do_connect(st, offer, seed):
             rec["resumed"] = 11 not in sm and 12 not in sm and 14 not in sm
         rec["view_c"] = W.view(pair.c, exporter=False)
         rec["view_s"] = W.view(pair.s, exporter=False)
+        rec["want_alpn"] = want_alpn
+        # both ends of every completed connection (resumed or not) agree,
+        # including exported keying material
+        full_c, full_s = W.view(pair.c), W.view(pair.s)
+        rec["view_diff"] = [k for (k, a, b) in W.views_equal(
+            full_c, full_s, keys=("version", "suite", "etm", "ems", "ms",
+                                  "appProto", "ekm"))]
         rec["pair"] = pair
     return rec
 
@@ -391,6 +413,16 @@ def step(st, ev, seed):
         fails.append("client.resumed=%s but the wire shows %s" % (
             rec["resumed_flag"], "an abbreviated handshake" if rec["resumed"]
             else "a full handshake"))
+    if both and rec.get("view_diff"):
+        fails.append("%s connection: client and server disagree on %r" % (
+            "resumed" if resumed else "full", rec["view_diff"]))
+    if both:
+        wa = rec.get("want_alpn")
+        got = rec["view_c"].get("appProto")
+        got = bytes.fromhex(got) if got else None
+        if got != wa:
+            fails.append("ALPN on this connection is %r, this connection's "
+                         "offer and the server's list give %r" % (got, wa))
     if resumed:
         if not el:
             fails.append("resumed although the session is not eligible (%s)"
